@@ -8,13 +8,13 @@ LEVELS = {"C14": "fault_enumeration"}
 # id -> (technique, level text, level note)
 CHECKS = {
  "C01": ("property-based testing (rapid) over token/line soup, repository inputs and mutations, deep nesting x configuration lattice; bounded-exhaustive short strings; native go fuzzing (thorough); oracle: no panic, nil error, Parse+Render == Convert, watchdog with isolated re-run",
-         "Generated-input search with an explicit totality oracle: every case must return nil from Convert and from Parse+Render with equal bytes, without panic, and within a watchdog bound that is only reported after an isolated reproduction. Exhaustive for all strings of length <= 3 (quick) / 4 (thorough) over a 23-symbol alphabet x 8 configurations; random and coverage-guided beyond. It cannot establish absence for longer inputs.",
+         "Generated-input search with an explicit totality oracle: every case must return nil from Convert and from Parse+Render with equal bytes, without panic, and within a watchdog bound that is only reported after an isolated reproduction. Exhaustive for all strings of length <= 3 (quick) / 4 (thorough) over a 23-symbol alphabet x 8 configurations, and for line-structured documents (all pairs of 175 line atoms = indentation x line content, plus all triples over 50 atoms in quick / all 175^3 triples in thorough, x 4 configurations); random and coverage-guided beyond. It cannot establish absence for longer inputs.",
          "Trusted: the harness (kit, generators), Go runtime panic recovery; documents are bounded to 16 KiB; the time bound is wall clock (30 s watchdog, 120 s isolated re-run)."),
  "C05": ("property-based testing (rapid) + bounded-exhaustive short strings + native go fuzzing (thorough); oracle: AST invariant validator applied to every node of every parsed tree",
-         "Generated-input search against a validity predicate written from the property statement (child-list consistency, no shared nodes, public kinds in legal places, levels, every segment inside the source, line order, inline text order inside the block's lines). Exhaustive for strings of length <= 3/4 over a 23-symbol alphabet x 4 configurations.",
+         "Generated-input search against a validity predicate written from the property statement (child-list consistency, no shared nodes, public kinds in legal places, levels, every segment inside the source, line order, inline text order inside the block's lines). Exhaustive for strings of length <= 3/4 over a 23-symbol alphabet x 4 configurations and for line-structured documents (pairs/triples of line atoms, as in C01) x 2 configurations. A self-test feeds hand-built malformed trees to the validator.",
          "Trusted: the validator (oracle/astcheck.go) and its reading of 'legal places'; documents up to 16 KiB."),
  "C03": ("property-based testing (rapid) over HTML/attribute-heavy soup and adversarial fragments in every attribute-bearing position x every safe configuration; native go fuzzing (thorough); oracle: strict HTML tokenizer + fixed vocabulary + browser tokenizer agreement + strict XML under XHTML",
-         "Generated-input search against a validity predicate over the output: a strict tokenizer that accepts only text, quoted-attribute start tags, end tags, void self-closing tags and the placeholder comment; nesting; tag and attribute vocabulary per configuration; agreement with golang.org/x/net/html's lenient tokenizer; encoding/xml strict parse under XHTML.",
+         "Generated-input search against a validity predicate over the output: a strict tokenizer that accepts only text, quoted-attribute start tags, end tags, void self-closing tags and the placeholder comment; nesting; tag and attribute vocabulary per configuration; agreement with golang.org/x/net/html's lenient tokenizer; encoding/xml strict parse under XHTML. Fixed good/bad vectors self-test the oracle on every run.",
          "Trusted: oracle/html.go, the literal vocabulary table, Go's html/xml packages and x/net/html."),
  "C04": ("property-based testing (rapid) with a URL attack grammar placed in every URL-bearing construct x safe configurations; native go fuzzing (thorough); oracle: every href/src decoded like a browser and normalised per WHATWG preprocessing must not be javascript:/vbscript:/file:/non-image data:",
          "Generated-input search: scheme spellings (case flips, backslash escapes, named/decimal/hex references with leading zeros, percent-encoding, leading/embedded whitespace and controls) in inline/reference links and images, autolinks, nested constructs, containers; a generator-health self-check requires unsafe mode to emit a dangerous URL in >= 15% of attack documents.",
@@ -62,7 +62,7 @@ CHECKS = {
          "Generated registrations against a reference dispatcher written from the documented priority rules; a self-test pins the assumptions about built-in priorities.",
          "Trusted: the reference dispatcher in checks/c20; built-in priorities as documented."),
  "C02": ("property-based testing (rapid): constructed-document model with reference renderer and spelling-choosing serialiser; exhaustive enumeration of the 652 spec examples x licensed rewrites against spec.json; delimiter soup against a reference implementation of the spec's delimiter-run algorithm (validated on 103 spec examples at start-up)",
-         "Three independent oracles, none of which asks goldmark: spec.json's expected HTML for rewritten examples (exhaustive), HTML known by construction for generated document models under any choice of equivalent spellings, and a reference emphasis algorithm for delimiter soup. Comparison modulo whitespace next to block tags (the slack of the spec's own comparison).",
+         "Three independent oracles, none of which asks goldmark: spec.json's expected HTML for rewritten examples (exhaustive), HTML known by construction for generated document models under any choice of equivalent spellings, and a reference emphasis algorithm for delimiter soup. Comparison modulo whitespace next to block tags (the slack of the spec's own comparison). The serialiser also emits near-miss spellings with an equally fixed meaning (continuation lines indented >= 5 columns that look like block starts, title-like lines followed by text after a definition, a literal backslash before a two-space hard break, labels spread over two lines).",
          "Trusted: the document model, reference renderer and serialiser (checks/c02/model,gen,ser), the reference emphasis algorithm (self-tested against spec.json), spec.json itself. The serialiser only emits spellings whose meaning is fixed by construction."),
  "C07": ("generated concurrent workloads (rapid) on fresh shared instances under the Go race detector (-race, GORACE=halt_on_error) with GOMAXPROCS variation and injected runtime.Gosched yields; per-goroutine output equality with the sequential output; fresh-process first-use cases by re-executing the test binary",
          "Generated workloads (2..16 goroutines x 1..6 actions over a document pool covering every node kind) explored under the race detector, which reports unsynchronised conflicting accesses on executed paths irrespective of timing; any report halts the shard and the running workload is the replay.",
